@@ -132,10 +132,11 @@ Definition code_res (c : Z) : C04_Model.res :=
   else if Z.eqb c 4 then C04_Model.Fail true C04_Model.ECouldNotRun
   else C04_Model.Ok.
 
+(* the case carries (suffix code) pairs: a name gets the code of the first pair whose suffix it ends in *)
 Fixpoint assoc (l : list (bytes * Z)) (n : bytes) : Z :=
   match l with
   | [] => 0%Z
-  | (m, c) :: l' => if bytes_eqb n m then c else assoc l' n
+  | (m, c) :: l' => if has_suffix n m then c else assoc l' n
   end.
 
 Definition un_out (s : sx) : option (bytes * Z) :=
@@ -150,7 +151,7 @@ Definition err_tag (e : run_err) : sx :=
   | EAmbiguousNames => sx_err "ambiguous-names"
   end.
 
-(* ("c01.run" id cl sv features includes excludes (suites) (patterns) ((name code)...))
+(* ("c01.run" id cl sv features includes excludes (suites) (patterns) ((name-suffix code)...))
      -> (ok (sent names, sorted) (marked names, sorted) |lib| |groups| |allPermutations| status) | (err tag) *)
 Definition run_c01_run (args : list sx) : sx :=
   or_bad (match args with
